@@ -84,8 +84,11 @@ def matches_lit(ms):
     return g_list([g_list(['%d%%nat' % x for x in m]) for m in ms])
 
 
-def run_shards(ctx, name, shards, timeout=1500):
-    """returns list of (shard index, mismatch indices) ; records broken shards"""
+def run_shards(ctx, name, shards, timeout=None):
+    """returns list of (shard index, mismatch indices) ; records broken shards.  A shard is given a few minutes in the quick tier
+    (a grammar or model that has become exponential must end as a reported failure, not as a check that never returns)"""
+    if timeout is None or ctx.tier == 'quick':
+        timeout = 420 if ctx.tier == 'quick' else 1500
     out = []
     for k, (ok, o) in enumerate(vlib.run_cases_sharded(name, shards, timeout=timeout)):
         val = vlib.coq_eval_value(o) if ok else None
